@@ -220,19 +220,19 @@ def is_copy_expr(e):
 TABLE = ['esc', '{', '}', '$', '&', 'eol', '#', '^', '_', ' ', 'abc', 'ABC', '', '~', '%', 'del']
 
 
-def ctx_heap(m, nframes=2, sharing=None):
+def ctx_heap(m, nframes=2, sharing=None, table=None):
     """A small heap for interpreting Context methods: `self` with `nframes` frames.  `sharing` names the category
     table of each frame (equal letters = the same list object); default: all frames share one table."""
     sharing = sharing or 'S' * nframes
     tables = {}
     for k in sharing:
-        tables.setdefault(k, list(TABLE))
+        tables.setdefault(k, list(table or TABLE))
     frames = [A.Obj('frame%d' % i, {'categories': tables[sharing[i]], 'obj': None, 'lets': {}}) for i in range(nframes)]
     for i in range(1, nframes):
         frames[i].attrs['parent'] = frames[i - 1]
     this = A.Obj('context', {'contexts': frames, 'categories': frames[-1].attrs['categories'], 'top': frames[-1], 'depth': nframes},
                  cls=m.cls('plasTeX.Context', 'Context'))
-    return {'self': this, '__shared': frames[-1].attrs['categories'], '__orig': tuple(TABLE), '__frames': list(frames),
+    return {'self': this, '__shared': frames[-1].attrs['categories'], '__orig': tuple(table or TABLE), '__frames': list(frames),
             '__outer': [f.attrs['categories'] for f in frames[:-1]]}
 
 
@@ -252,12 +252,12 @@ class TableHooks(SelfHooks):
         return SelfHooks.lookup(self, interp, name, state)
 
 
-def cow_outcomes(m, fn, env_extra, nframes=2, sharing=None):
+def cow_outcomes(m, fn, env_extra, nframes=2, sharing=None, table=None):
     """Interpret a Context method on the small heap; per normal exit report which invariants hold."""
     h = TableHooks(m, m.cls('plasTeX.Context', 'Context'))
     h.keep = lambda ev: False
     it = A.Interp(model=m, scope=fn, hooks=h, max_iter=20, exc_edges=False, inline=1)
-    env = ctx_heap(m, nframes, sharing)
+    env = ctx_heap(m, nframes, sharing, table)
     env.update(env_extra)
     outs = it.run_function(fn, env=env)
     res = []
@@ -283,8 +283,28 @@ def cow_outcomes(m, fn, env_extra, nframes=2, sharing=None):
     return res
 
 
-def r42(chk, m):
-    R = chk.rule('R4.2', 'category tables are copy-on-write: a function that changes category codes never edits a table that '
+def catcode_tables(m, code, char='x'):
+    """Tables in force after Context.catcode(char, code) on a heap whose shared table has `char` in two classes;
+    list of 16-tuples (or None when not determined)."""
+    fn = m.find_method(m.cls('plasTeX.Context', 'Context'), 'catcode')
+    need(fn is not None, 'Context.catcode not found')
+    out = []
+    for ps, cur, s in cow_outcomes(m, fn, {'char': char, 'code': code}, 2, 'GS', table=[t + (char if i in (0, 3, 11, 15) else '') for i, t in enumerate(TABLE)]):
+        out.append(tuple(cur) if isinstance(cur, list) and all(isinstance(x, str) for x in cur) else None)
+    return out
+
+
+def verbatim_tables(m):
+    fn = m.find_method(m.cls('plasTeX.Context', 'Context'), 'setVerbatimCatcodes')
+    need(fn is not None, 'Context.setVerbatimCatcodes not found')
+    out = []
+    for ps, cur, s in cow_outcomes(m, fn, {}, 2, 'GS'):
+        out.append((list(cur) if isinstance(cur, list) else None, s.env.get('__mod_VERBATIM_CATEGORIES_orig')))
+    return out
+
+
+def r42(chk, m, rule_id='R4.2'):
+    R = chk.rule(rule_id, 'category tables are copy-on-write: a function that changes category codes never edits a table that '
                  'enclosing frames (or the module defaults) can see, installs the new table in the innermost frame, and keeps '
                  'context.categories identical to that frame\'s table', 3)
     # (a) Context methods that change the table: decided on a small heap by abstract interpretation
